@@ -90,7 +90,9 @@ def _classes():
             if self.kind == "Other":
                 raise ValueError(f"injected fault in dumps at {self.pos}")
             if self.kind == "Unserialisable":
-                return object()
+                # something the JSON layer cannot write: an arbitrary object, or - at odd positions - text that cannot be
+                # encoded (an undecodable byte of a file name, surrogate-escaped by Python)
+                return object() if sum(self.pos) % 2 == 0 else "caf\udce9.gbk"
             return f"payload {self.pos[0]}.{self.pos[1]}"
 
     class Stub(ModuleResults):
